@@ -67,9 +67,10 @@ def check(ctx):
             mine = set(f for f in N.raw_only(facts[dnode])
                        if f.mentions & names)
             if func.name == 'reschedule':
-                want = {N.Atom(('truth', 'before', True)),
-                        N.cmp_atom(ast.Name(id='before'), '!=',
-                                   ast.Name(id='after'))}
+                bname, aname = M.before_after(loop)
+                want = {N.Atom(('truth', bname, True)),
+                        N.cmp_atom(ast.Name(id=bname), '!=',
+                                   ast.Name(id=aname))}
                 ctx.ob('C10.2', func, dnode, mine == want,
                        'the removal pass is guarded by exactly `before and '
                        'before != after`: every relocation has its delete '
@@ -148,10 +149,64 @@ def check(ctx):
                                              for f in facts[inner]),
                construct='repair guard len(servers) > 1')
     # the integrity map records every restored placement
-    src = ast.unparse(func.node)
-    ctx.ob('C10.3', func, None,
-           'for servername in self.servers' in src and
-           'integrity[appname].append(servername)' in src,
+    ok = False
+    calls = K.nodes_calling(graph, lambda c: K.is_meth(c, 'restore_placement')
+                            and K.recv_text(c) == 'self' and c.args)
+    for cnode, call in calls:
+        sloop = K.enclosing_for(graph, cnode)
+        if sloop is None or N.txt(sloop.ast.iter) not in (
+                'self.servers', 'self.servers.keys()', 'list(self.servers)',
+                'six.iterkeys(self.servers)'):
+            continue
+        svar = N.txt(sloop.ast.target)
+        if N.txt(call.args[0]) != svar or \
+                N.raw_only(f for f in facts[cnode]
+                           if svar in f.mentions):
+            continue
+        # the restored list: second component of the result
+        stmt = cnode.ast
+        rname = None
+        if isinstance(stmt, ast.Assign) and \
+                isinstance(stmt.targets[0], ast.Tuple) and \
+                len(stmt.targets[0].elts) == 2 and stmt.value is call:
+            rname = N.txt(stmt.targets[0].elts[1])
+        elif isinstance(stmt, ast.Assign) and \
+                isinstance(stmt.value, ast.Subscript) and \
+                stmt.value.value is call and \
+                N.txt(stmt.value.slice) == '1':
+            rname = N.txt(stmt.targets[0])
+        for inner in graph.nodes:
+            if inner.kind != 'for' or inner not in K.loop_body_nodes(sloop):
+                continue
+            it = inner.ast.iter
+            direct = isinstance(it, ast.Subscript) and it.value is call \
+                and N.txt(it.slice) == '1'
+            if not (direct or (rname and N.txt(it) == rname)):
+                continue
+            avar = N.txt(inner.ast.target)
+            for node in K.loop_body_nodes(inner):
+                for app in C.node_calls(node):
+                    if not (K.is_meth(app, 'append') and app.args and
+                            N.txt(app.args[0]) == svar):
+                        continue
+                    recv = K.recv(app)
+                    keyed = isinstance(recv, ast.Subscript) and \
+                        N.txt(recv.slice) == avar and \
+                        N.txt(recv.value) or (
+                            isinstance(recv, ast.Call) and
+                            K.is_meth(recv, 'setdefault') and
+                            len(recv.args) == 2 and
+                            N.txt(recv.args[0]) == avar and
+                            N.txt(recv.args[1]) in ('[]', 'list()') and
+                            K.recv_text(recv))
+                    cond = [f for f in N.raw_only(facts[node])
+                            if f.mentions & {avar, svar}]
+                    if keyed and not cond and any(
+                            keyed in N.txt(d.ast.iter)
+                            for d in graph.nodes if d.kind == 'for' and
+                            d is not sloop and d is not inner):
+                        ok = True
+    ctx.ob('C10.3', func, None, ok,
            'the integrity map is built from every server and every '
            'restored instance', construct='integrity map construction')
     _feeder(ctx, loader, nz)
